@@ -24,7 +24,7 @@ func TestMain(m *testing.M) { lib.Main(m) }
 var spec = lib.Spec{
 	ID: "C32",
 	Rule: "generated repositories (5-10 targets incl. directory outputs and filegroups; commands sleep 20-120 ms) are built at state A, edited (1-2 edits) to state B, then `plz build` of B is started and killed: " +
-		"either SIGKILL of plz and every process it started at a drawn instant 100-2500 ms, or under `strace -f -e inject=<syscall>:signal=KILL:when=k` for a drawn metadata syscall " +
+		"either SIGKILL of plz and every process it started 0-150 ms after the n-th command of the build has started (n drawn 0-6, observed through the action log), or under `strace -f -e inject=<syscall>:signal=KILL:when=k` for a drawn metadata syscall " +
 		"(renameat, renameat2, setxattr, lsetxattr, fsetxattr, unlinkat, linkat, symlinkat, mkdirat, openat, write, chmod/fchmodat) and a drawn k (1-40, mostly small; counters are per thread, so k lands on varying operations: exploration, not enumeration). " +
 		"Optionally a second kill follows. Then a normal `plz build` runs. Oracle: it exits 0 and every requested target's outputs equal the Go model of B (a mismatch is confirmed against a real clean build before it is reported). " +
 		"Non-trivial = the kill hit a running plz (exit by signal) after at least one action of the B build had started, or the strace-injected kill fired; distinct = JSON of the case",
@@ -35,8 +35,9 @@ var spec = lib.Spec{
 }
 
 type Kill struct {
-	Mode    string // "time" | "syscall"
+	Mode    string // "time": kill DelayMs after the AfterActions-th command of the build has started | "syscall"
 	DelayMs int    `json:",omitempty"`
+	After   int    `json:",omitempty"`
 	Syscall string `json:",omitempty"`
 	When    int    `json:",omitempty"`
 }
@@ -54,7 +55,7 @@ func genKill(t *rapid.T) Kill {
 	if rapid.IntRange(0, 2).Draw(t, "mode") == 0 {
 		return Kill{Mode: "syscall", Syscall: rapid.SampledFrom(killSyscalls).Draw(t, "syscall"), When: rapid.SampledFrom([]int{1, 1, 2, 2, 3, 4, 5, 6, 8, 12, 20, 40}).Draw(t, "when")}
 	}
-	return Kill{Mode: "time", DelayMs: rapid.IntRange(100, 2500).Draw(t, "delay")}
+	return Kill{Mode: "time", After: rapid.IntRange(0, 6).Draw(t, "after"), DelayMs: rapid.IntRange(0, 150).Draw(t, "delay")}
 }
 
 func gen(t *rapid.T) Case {
@@ -137,9 +138,28 @@ func crashBuild(e *lib.E2E, k Kill, req []string) (killed bool, started int, err
 	go func() { done <- cmd.Wait() }()
 	var werr error
 	if k.Mode == "time" {
+		// wait until the k.After-th command has started (observed through the action log), then
+		// DelayMs more; this places the kill inside real work whatever the machine load is
+		fire := make(chan struct{})
+		stop := make(chan struct{})
+		go func() {
+			for {
+				select {
+				case <-stop:
+					return
+				case <-time.After(3 * time.Millisecond):
+				}
+				if len(lib.Started(lib.ReadActions(e.W))) >= k.After {
+					time.Sleep(time.Duration(k.DelayMs) * time.Millisecond)
+					close(fire)
+					return
+				}
+			}
+		}()
 		select {
 		case werr = <-done:
-		case <-time.After(time.Duration(k.DelayMs) * time.Millisecond):
+			close(stop)
+		case <-fire:
 			syscall.Kill(-cmd.Process.Pid, syscall.SIGKILL)
 			killAll(e.Dir)
 			werr = <-done
